@@ -21,5 +21,11 @@ meta = {'property': res['property'], 'breaks': notes.get('breaks'), 'needs': not
         'confirmed': {'demo_fails_with_change': res.get('demo_with_change_rc', 0) != 0, 'demo_passes_without': res.get('demo_without_change_rc') == 0,
                       'how': 'tools/seedcheck.py: patch applied in a scratch worktree of /repo HEAD, demo.py run with and without, ./check run with VERIF_REPO pointing at the worktree'},
         'check': {'detected': res.get('detected'), 'no_failing_input_found': res.get('no_failing_input'), 'tail': res.get('check_tail', '')[-500:]}}
+old_meta = os.path.join(dst, 'meta.json')
+if os.path.exists(old_meta):
+    om = json.load(open(old_meta))
+    for k in ('history', 'breaks', 'needs', 'author_ran'):
+        if om.get(k) and not meta.get(k):
+            meta[k] = om[k]
 json.dump(meta, open(os.path.join(dst, 'meta.json'), 'w'), indent=1)
 print(name, 'confirmed' if ok else 'NOT CONFIRMED', 'detected' if res.get('detected') else 'MISSED', '(no-failing-input)' if res.get('no_failing_input') else '')
